@@ -687,6 +687,22 @@ func TestVerif_C03_ACL(t *testing.T) {
 // FuzzVerif_C03_ACL drives the same property from the native fuzzer's bytes.
 func FuzzVerif_C03_ACL(f *testing.F) {
 	rec := verifx.NewRecorder("C03", "acl-fuzz", c03RuleText)
-	f.Cleanup(rec.Flush)
+	// not flushed: the driver counts the fuzzer's execs itself (coordinator and workers are separate processes)
+	// rapid reads 8 bytes per draw and gives up on a case when the bytes run out; without seeds (the driver's
+	// binary has no coverage instrumentation) the fuzzer would only ever try inputs that are too short.
+	// Deterministic seeds from a fixed xorshift generator.
+	x := uint64(0x9E3779B97F4A7C15)
+	for i := 0; i < 48; i++ {
+		buf := make([]byte, 6144)
+		for j := 0; j < len(buf); j += 8 {
+			x ^= x << 13
+			x ^= x >> 7
+			x ^= x << 17
+			for k := 0; k < 8; k++ {
+				buf[j+k] = byte(x >> (8 * k))
+			}
+		}
+		f.Add(buf)
+	}
 	f.Fuzz(rapid.MakeFuzz(c03Property(rec)))
 }
